@@ -432,10 +432,7 @@ class Class(object):
             if attr.upper() != uname :
                 continue
             
-            if attr in self.__dict__:
-                return self.__dict__[attr]
-            else:
-                return object.__getattribute__(self, attr)
+            return object.__getattribute__(self, attr)
         
         return object.__getattribute__(self, name)
     
@@ -445,11 +442,7 @@ class Class(object):
             if attr.upper() != uname :
                 continue
 
-            if attr in self.__dict__:
-                self.__dict__[attr] = value
-                return
-            else:
-                return object.__setattr__(self, attr, value)
+            return object.__setattr__(self, attr, value)
         
         self.__dict__[name] = value
         
